@@ -270,6 +270,10 @@ PURE_CALLS = {'len', 'is_empty', 'index', 'get', 'first', 'last', 'iter', 'as_re
               'ends_with', 'to_string', 'to_owned', 'into', 'from', 'borrow', 'as_slice', 'is_some', 'is_none', 'copied', 'cloned'}
 
 
+GLO = ('loc', ('$lo',))
+GHI = ('loc', ('$hi',))
+
+
 class Zone:
     """sparse difference constraints: e[(y, x)] = c  means  x - y <= c"""
     __slots__ = ('e', 'bottom')
@@ -1102,9 +1106,35 @@ class BoundsAnalysis:
             elif ok_roots.get(loc[0]) == 'ref' and all(isinstance(x, tuple) and x and x[0] == 'f' for x in loc[1:]):
                 keep.add(v)
         out = Zone()
-        for (y, x), c in e.copy().closed(keep).items():
+        if (0,) in [v[1] for v in e.vars() if v != Z] and b.local_ty(0) in INT_TYS:
+            keep.add(GLO)
+            keep.add(GHI)
+        cl = e.copy().closed(keep)
+        self.ghost_facts = {}
+        ret = ('loc', (0,))
+        if (ret, GLO) in cl:
+            self.ghost_facts['lo'] = cl[(ret, GLO)]          # GLO - ret <= c : the result is at least (a lower bound of all int parameters) - c
+        if (GHI, ret) in cl:
+            self.ghost_facts['hi'] = cl[(GHI, ret)]          # ret - GHI <= c
+        for (y, x), c in cl.items():
+            if GLO in (y, x) or GHI in (y, x):
+                continue
             out.e[(y, x)] = c
-        return out if out.e else None
+        return out if (out.e or self.ghost_facts) else None
+
+    def ghost_entry(self):
+        """entry state for the summary pass: GLO <= every integer parameter <= GHI.  For any argument values such ghosts exist
+        (their minimum / maximum), so what is derived among real variables stays valid for every caller; what is derived between
+        the result and a ghost says `result >= min(parameters) - c` / `result <= max(parameters) + c`."""
+        b = self.b
+        ps = [a for a in range(1, b.arg_count + 1) if not b.defs(a) and b.local_ty(a) in INT_TYS]
+        if len(ps) < 2 or b.local_ty(0) not in INT_TYS:
+            return None, ps
+        z = Zone()
+        for a in ps:
+            z.add(GLO, ('loc', (a,)), 0)
+            z.add(('loc', (a,)), GHI, 0)
+        return z, ps
 
     def apply_summary(self, z, t, cb, summ, dx):
         """add the callee's exit facts, renamed to the caller's locations, to the state on the normal-return edge (after the
@@ -1149,6 +1179,31 @@ class BoundsAnalysis:
                 continue
             # (X + ox) - (Y + oy) <= c
             z.add(X[0], Y[0], c - X[1] + Y[1])
+        gh = self.summaries.get(('ghost', cb.key))
+        if gh and dx is not None:
+            facts_, ps = gh
+            acts = []
+            for pl in ps:
+                m = ren.get(pl)
+                if m is None or m[0] == 'mem':
+                    acts = None
+                    break
+                acts.append((Z, m[1]) if m[0] == 'const' else m[1])
+            if acts:
+                zz = z.copy()
+                for y in list(zz.vars()):
+                    if y == dx or y in self.tainted:
+                        continue
+                    if 'lo' in facts_:
+                        ks = [(zz.bound(y, A[0]) if y != A[0] else 0) for A in acts]
+                        if all(k is not None for k in ks):
+                            K = max(k - A[1] for k, A in zip(ks, acts))      # y - K <= every argument
+                            z.add(y, dx, K + facts_['lo'])
+                    if 'hi' in facts_:
+                        ks = [(zz.bound(A[0], y) if y != A[0] else 0) for A in acts]
+                        if all(k is not None for k in ks):
+                            K = max(k + A[1] for k, A in zip(ks, acts))      # every argument <= y + K
+                            z.add(dx, y, K + facts_['hi'])
 
     def project(self, z, agg):
         """constraints among the locations a closure captures immutably, renamed into the closure's own locations"""
@@ -1246,6 +1301,8 @@ class BoundsAnalysis:
             if v == Z:
                 continue
             root = v[1][0]
+            if isinstance(root, str):
+                continue                    # ghost bound of the parameters (exit summaries)
             if not b.is_arg(root) and root not in live:
                 z.forget(v)
 
@@ -1689,6 +1746,13 @@ def _analyse_crate(facts, want=None, keep=None):
     fn_entries = {}
     summaries = {}
     out = {}
+    called = set()
+    for b in bodies:
+        for _, t in b.calls():
+            c = t.get('callee') or {}
+            cb_ = facts.body(c.get('resolved') or c.get('path') or '')
+            if cb_ is not None:
+                called.add(cb_.key)
 
     def run_all(use_fn_entries):
         entries = {}
@@ -1698,7 +1762,9 @@ def _analyse_crate(facts, want=None, keep=None):
             has_sites, has_closures = interesting(b)
             calls_local = any(facts.body((t.get('callee') or {}).get('resolved') or (t.get('callee') or {}).get('path') or '') is not None
                               for _, t in b.calls())
-            if not has_sites and not has_closures and not calls_local and not (keep is not None and want and b.key in want):
+            summarise = (not use_fn_entries) and b.key in called and b.d['kind'] != 'Closure'   # a helper somebody calls: its exit facts
+            if not has_sites and not has_closures and not calls_local and not summarise and \
+                    not (keep is not None and want and b.key in want):
                 continue
             a = BoundsAnalysis(facts, b)
             a.summaries = summaries if use_fn_entries else {}
@@ -1711,11 +1777,18 @@ def _analyse_crate(facts, want=None, keep=None):
                     a.entry = e
             elif use_fn_entries and b.key in fn_entries:
                 a.entry = fn_entries[b.key]
+            gps = None
+            if not use_fn_entries and b.d['kind'] != 'Closure' and a.entry is None and b.key in called:
+                ge, gps = a.ghost_entry()
+                if ge is not None:
+                    a.entry = ge
             sites = a.run()
             if not use_fn_entries:
                 sm = a.exit_summary()
                 if sm is not None:
                     summaries[b.key] = sm
+                    if gps and getattr(a, 'ghost_facts', None):
+                        summaries[('ghost', b.key)] = (a.ghost_facts, gps)
             if keep is not None:
                 keep[b.key] = a
             for pt, (path, z) in a.closure_made.items():
@@ -1789,6 +1862,11 @@ def _from_index_vector(b, o, depth=0):
                     return _from_index_vector(b, {'k': 'copy', 'p': {'l': q['l'], 'pr': ['*'], 'ty': 'usize'}}, depth + 1)
         return False
     if p['pr']:
+        # `for i in a..b` / `while let Some(i) = it.next()`: the payload of the Option<usize> an iterator's next() handed out
+        if any(isinstance(x, dict) and x.get('dc') == 'Some' for x in p['pr']) and 'Option<usize>' in ty.replace('std::option::', ''):
+            d = _single_def(b, l)
+            if d is not None and d[1] == 'call' and (d[2].get('callee') or {}).get('name') in ('next', 'next_back'):
+                return True
         return False
     if b.d['kind'] == 'Closure' and b.is_arg(l) and l >= 2 and ty == 'usize':
         return True
@@ -2193,8 +2271,9 @@ def rule_decoder_width(ctx, config='dev'):
 POSITION_ASSUMED = {
     ('ConcatSource', 'generated_line'): (1, 'line numbers count line breaks / `;` separators: reaching 2^32 needs a mappings string of 4 GiB '
                                             '(the input assumption DECODER-TOTAL already states)'),
-    ('ReplaceSource', 'generated_column'): (3, 'ReplaceSource streams its inner source with text (final_source = false): the positions it '
-                                               'receives are positions inside the delivered text, not values copied from a map'),
+    # (until round 9 the three `generated_column += ..` of ReplaceSource's chunk handler were listed here with the reason "the inner source
+    #  is streamed with text, so the positions it reports are positions inside the delivered text".  That assumption is false: an inner
+    #  ReplaceSource corrects char-counted columns by byte lengths and hands out `(negative i64) as u32` — defect F14, DESIGN 6.)
 }
 
 
